@@ -19,6 +19,7 @@ import (
 	"context"
 	"fmt"
 	"net"
+	"net/http"
 	"strconv"
 
 	"github.com/matrix-org/gomatrixserverlib/spec"
@@ -38,13 +39,15 @@ type ResolutionResult struct {
 // request to the server using a given server name.
 // Returns an error if the server name isn't valid.
 func ResolveServer(ctx context.Context, serverName spec.ServerName) (results []ResolutionResult, err error) {
-	return resolveServer(ctx, serverName, true)
+	return resolveServer(ctx, serverName, true, nil)
 }
 
 // resolveServer does the same thing as ResolveServer, except it also requires
 // the checkWellKnown parameter, which indicates whether a .well-known file
 // should be looked up.
-func resolveServer(ctx context.Context, serverName spec.ServerName, checkWellKnown bool) (results []ResolutionResult, err error) {
+// wellKnownClient is the HTTP client for the .well-known request (nil: a client on the
+// default transport).
+func resolveServer(ctx context.Context, serverName spec.ServerName, checkWellKnown bool, wellKnownClient *http.Client) (results []ResolutionResult, err error) {
 	host, port, valid := spec.ParseAndValidateServerName(serverName)
 	if !valid {
 		err = fmt.Errorf("Invalid server name")
@@ -94,13 +97,13 @@ func resolveServer(ctx context.Context, serverName spec.ServerName, checkWellKno
 	if checkWellKnown {
 		// 3. If the hostname is not an IP literal
 		var result *WellKnownResult
-		result, err = LookupWellKnown(ctx, serverName)
+		result, err = lookupWellKnown(ctx, serverName, wellKnownClient)
 		if err == nil {
 			// A delegated name that isn't a server name makes the response invalid:
 			// carry on with step 4 for the name we were asked about.
 			if _, _, ok := spec.ParseAndValidateServerName(result.NewAddress); ok {
 				// We don't want to check .well-known on the result
-				return resolveServer(ctx, result.NewAddress, false)
+				return resolveServer(ctx, result.NewAddress, false, nil)
 			}
 		}
 	}
